@@ -76,6 +76,7 @@ def work(item):
     else:
         assigns = [tuple(rnd.choice((None, None, "ok", "ko")) for _ in allp) for _ in range(12)]
         assigns.append(tuple("ok" for _ in allp))
+        assigns.append(tuple(None for _ in allp))          # nothing to mark: the text comes out as it is
         assigns.append(tuple("ok" if len(p) % 2 else "ko" for p in allp))
         assigns.append(tuple("ok" if len(p) == 0 or len(p) >= 2 else None for p in allp))
     for a in assigns:
@@ -117,12 +118,14 @@ def main():
         qs.append(gen.render(seq, 1, sep=" "))
     qs += ["foo OR bar OR foo", "price:[10 TO 10]", "(a AND b) OR c OR (a AND  b)", "foo~ AND bar^ AND \"x y\"~",
            "(a OR b) AND (c OR d)", "foo AND (bar~2 OR baz)", " a  AND ( b OR ( c AND ( d OR ( e AND f ) ) ) ) ",
-           "x:(y:(z:(w))) OR NOT -q", "a b c d e f", "f:[a TO b]^2 \"p q\"~3 /re/"]
+           "x:(y:(z:(w))) OR NOT -q", "a b c d e f", "f:[a TO b]^2 \"p q\"~3 /re/",
+           # blanks carried by the root element itself
+           "  foo ", " (foo OR bar)  ", " f:x ", "\tNOT a ", " [1 TO 2] ", " a^2 ", "  \"p q\"~2\n", " +a ", "  a:foo  AND b:bar ", "(a)AND(b)", "NOT(a)", "\"a\"\"b\" c"]
     res = pmap(work, list(enumerate(qs)))
     failures = [f for r in res for f in r[1]]
     rest, hit = classify(failures, p.get("known", []))
     emit({"ok": not rest, "evaluations": sum(r[0] for r in res), "distinct_nontrivial": len(qs),
-          "rule": "queries = every accepted token sequence of <= %d tokens (single blanks) + 10 hand-picked nested queries; "
+          "rule": "queries = every accepted token sequence of <= %d tokens (single blanks) + 22 hand-picked queries (nesting, blanks on the root element, operators glued to parentheses / quotes); "
                   "markings: all 3^n assignments for trees of <= 5 nodes, 15 seeded/structured assignments otherwise; both modes; "
                   "distinct = queries" % p["max_tokens"],
           "bound": "token sequences <= %d; sampled markings for larger trees" % p["max_tokens"],
